@@ -213,6 +213,12 @@ fn mutate(tok: &str, m: &PingPongMessage, stale: &Option<PingPongMessage>) -> Op
         "t1" => Some(PingPongMessage::Continue { verifier_message: a, verifier_share: b }),
         "t2" => Some(PingPongMessage::Finish { verifier_message: a }),
         "s" => stale.clone(),
+        // the embedded payload followed by one extra byte: the outer message still decodes, the payload must not
+        "p" => Some(match m {
+            PingPongMessage::Initialize { verifier_share } => PingPongMessage::Initialize { verifier_share: [verifier_share.as_slice(), &[0]].concat() },
+            PingPongMessage::Continue { verifier_message, verifier_share } => PingPongMessage::Continue { verifier_message: verifier_message.clone(), verifier_share: [verifier_share.as_slice(), &[0]].concat() },
+            PingPongMessage::Finish { verifier_message } => PingPongMessage::Finish { verifier_message: [verifier_message.as_slice(), &[0]].concat() },
+        }),
         _ => None,
     }
 }
@@ -376,76 +382,112 @@ fn broadcast(v: &TraceVdaf, s_l: u8, s_h: u8) -> Option<(TOut, TOut)> {
 }
 
 /// real VDAFs through ping-pong vs the broadcast helper of the library
+pub fn pp<V, const K: usize>(v: &V, vk: &[u8; K], ctx: &[u8], ap: &V::AggregationParam, nonce: &[u8; 16], ps: &V::PublicShare, ins: &[V::InputShare]) -> Option<(Vec<u8>, Vec<u8>, Vec<&'static str>)>
+where
+    V: Aggregator<K, 16>,
+    V::VerifyState: Encode,
+{
+    let mut kinds = vec![];
+    let l = v.leader_initialized(vk, ctx, ap, nonce, ps, &ins[0]).ok()?;
+    kinds.push("initialize");
+    let mut leader_state = Some(l.verifier_state);
+    let mut helper_state: Option<V::VerifyState> = None;
+    let mut msg = l.message;
+    let mut to_helper = true;
+    let (mut lo, mut ho) = (None, None);
+    let mut first = true;
+    for _ in 0..10 {
+        let cont = if to_helper {
+            if first {
+                first = false;
+                v.helper_initialized(vk, ctx, ap, nonce, ps, &ins[1], &msg).ok()?
+            } else {
+                v.helper_continued(ctx, ap, helper_state.take()?, &msg).ok()?
+            }
+        } else {
+            v.leader_continued(ctx, ap, leader_state.take()?, &msg).ok()?
+        };
+        match cont.evaluate(ctx, v).ok()? {
+            PingPongState::Continued(c) => {
+                kinds.push("continue");
+                if to_helper { helper_state = Some(c.verifier_state) } else { leader_state = Some(c.verifier_state) }
+                msg = c.message;
+            }
+            PingPongState::FinishedWithOutbound { output_share, message } => {
+                kinds.push("finish");
+                if to_helper { ho = Some(output_share) } else { lo = Some(output_share) }
+                msg = message;
+            }
+            PingPongState::Finished { output_share } => {
+                if to_helper { ho = Some(output_share) } else { lo = Some(output_share) }
+                break;
+            }
+        }
+        to_helper = !to_helper;
+    }
+    Some((lo?.get_encoded().ok()?, ho?.get_encoded().ok()?, kinds))
+}
+pub fn bc<V, const K: usize>(v: &V, vk: &[u8; K], ctx: &[u8], ap: &V::AggregationParam, nonce: &[u8; 16], ps: &V::PublicShare, ins: &[V::InputShare]) -> Option<(Vec<u8>, Vec<u8>)>
+where
+    V: Aggregator<K, 16>,
+{
+    let (mut s0, mut h0) = v.verify_init(vk, ctx, 0, ap, nonce, ps, &ins[0]).ok()?;
+    let (mut s1, mut h1) = v.verify_init(vk, ctx, 1, ap, nonce, ps, &ins[1]).ok()?;
+    loop {
+        let m = v.verifier_shares_to_message(ctx, ap, [h0.clone(), h1.clone()]).ok()?;
+        match (v.verify_next(ctx, s0, m.clone()).ok()?, v.verify_next(ctx, s1, m).ok()?) {
+            (VerifyTransition::Finish(a), VerifyTransition::Finish(b)) => return Some((a.get_encoded().ok()?, b.get_encoded().ok()?)),
+            (VerifyTransition::Continue(a, x), VerifyTransition::Continue(b, y)) => {
+                s0 = a;
+                h0 = x;
+                s1 = b;
+                h1 = y;
+            }
+            _ => return None,
+        }
+    }
+}
+
+/// Prio3 types with joint randomness and with several proofs through the ping-pong topology: same output
+/// shares as the broadcast execution (the combiner must see the shares in aggregator order)
+pub fn prio3_pingpong(out: &mut Out, rng: &mut Sm, i: usize) {
+    use prio::field::Field128;
+    use prio::flp::gadgets::{Mul, ParallelSum};
+    use prio::flp::types::SumVec;
+    use prio::vdaf::prio3::Prio3;
+    use prio::vdaf::xof::XofTurboShake128;
+    use prio::vdaf::Client;
+    let nonce: [u8; 16] = rng.bytes(16).try_into().unwrap();
+    let vk: [u8; 32] = rng.bytes(32).try_into().unwrap();
+    let ctx = rng.bytes(i % 5);
+    let v = Prio3::new_histogram(2, 7, 3).unwrap();
+    let (ps, ins) = v.shard(&ctx, &(rng.below(7) as usize), &nonce).unwrap();
+    let a = pp(&v, &vk, &ctx, &(), &nonce, &ps, &ins);
+    let b = bc(&v, &vk, &ctx, &(), &nonce, &ps, &ins);
+    out.oracle(b.is_some() && a.as_ref().map(|x| (x.0.clone(), x.1.clone())) == b, || format!("prio3histogram pingpong {}", i), || "ping-pong and broadcast outputs differ (or an honest report was rejected)".into());
+    let v = Prio3::<SumVec<Field128, ParallelSum<Field128, Mul>>, XofTurboShake128, 32>::new(2, 2, 0xFFFF_0000, SumVec::new(3, 4, 3).unwrap()).unwrap();
+    let (ps, ins) = v.shard(&ctx, &vec![3, 0, 1, 2], &nonce).unwrap();
+    let a = pp(&v, &vk, &ctx, &(), &nonce, &ps, &ins);
+    let b = bc(&v, &vk, &ctx, &(), &nonce, &ps, &ins);
+    out.oracle(b.is_some() && a.as_ref().map(|x| (x.0.clone(), x.1.clone())) == b, || format!("prio3sumvec(2 proofs) pingpong {}", i), || "ping-pong and broadcast outputs differ (or an honest report was rejected)".into());
+    let v = Prio3::new_multihot_count_vec(2, 5, 2, 3).unwrap();
+    let (ps, ins) = v.shard(&ctx, &vec![true, false, false, true, false], &nonce).unwrap();
+    let a = pp(&v, &vk, &ctx, &(), &nonce, &ps, &ins);
+    let b = bc(&v, &vk, &ctx, &(), &nonce, &ps, &ins);
+    out.oracle(b.is_some() && a.as_ref().map(|x| (x.0.clone(), x.1.clone())) == b, || format!("prio3multihot pingpong {}", i), || "ping-pong and broadcast outputs differ (or an honest report was rejected)".into());
+    let v = Prio3::new_l1_bound_sum(2, 7, 3, 4).unwrap();
+    let (ps, ins) = v.shard(&ctx, &vec![3, 0, 4], &nonce).unwrap();
+    let a = pp(&v, &vk, &ctx, &(), &nonce, &ps, &ins);
+    let b = bc(&v, &vk, &ctx, &(), &nonce, &ps, &ins);
+    out.oracle(b.is_some() && a.as_ref().map(|x| (x.0.clone(), x.1.clone())) == b, || format!("prio3l1 pingpong {}", i), || "ping-pong and broadcast outputs differ (or an honest report was rejected)".into());
+    out.count("prio3.pingpong");
+}
+
 fn real_vdafs(out: &mut Out, rng: &mut Sm, rounds: usize) {
     use prio::idpf::IdpfInput;
     use prio::vdaf::poplar1::{Poplar1, Poplar1AggregationParam};
     use prio::vdaf::prio3::Prio3;
     use prio::vdaf::Client;
-    fn pp<V, const K: usize>(v: &V, vk: &[u8; K], ctx: &[u8], ap: &V::AggregationParam, nonce: &[u8; 16], ps: &V::PublicShare, ins: &[V::InputShare]) -> Option<(Vec<u8>, Vec<u8>, Vec<&'static str>)>
-    where
-        V: Aggregator<K, 16>,
-        V::VerifyState: Encode,
-    {
-        let mut kinds = vec![];
-        let l = v.leader_initialized(vk, ctx, ap, nonce, ps, &ins[0]).ok()?;
-        kinds.push("initialize");
-        let mut leader_state = Some(l.verifier_state);
-        let mut helper_state: Option<V::VerifyState> = None;
-        let mut msg = l.message;
-        let mut to_helper = true;
-        let (mut lo, mut ho) = (None, None);
-        let mut first = true;
-        for _ in 0..10 {
-            let cont = if to_helper {
-                if first {
-                    first = false;
-                    v.helper_initialized(vk, ctx, ap, nonce, ps, &ins[1], &msg).ok()?
-                } else {
-                    v.helper_continued(ctx, ap, helper_state.take()?, &msg).ok()?
-                }
-            } else {
-                v.leader_continued(ctx, ap, leader_state.take()?, &msg).ok()?
-            };
-            match cont.evaluate(ctx, v).ok()? {
-                PingPongState::Continued(c) => {
-                    kinds.push("continue");
-                    if to_helper { helper_state = Some(c.verifier_state) } else { leader_state = Some(c.verifier_state) }
-                    msg = c.message;
-                }
-                PingPongState::FinishedWithOutbound { output_share, message } => {
-                    kinds.push("finish");
-                    if to_helper { ho = Some(output_share) } else { lo = Some(output_share) }
-                    msg = message;
-                }
-                PingPongState::Finished { output_share } => {
-                    if to_helper { ho = Some(output_share) } else { lo = Some(output_share) }
-                    break;
-                }
-            }
-            to_helper = !to_helper;
-        }
-        Some((lo?.get_encoded().ok()?, ho?.get_encoded().ok()?, kinds))
-    }
-    fn bc<V, const K: usize>(v: &V, vk: &[u8; K], ctx: &[u8], ap: &V::AggregationParam, nonce: &[u8; 16], ps: &V::PublicShare, ins: &[V::InputShare]) -> Option<(Vec<u8>, Vec<u8>)>
-    where
-        V: Aggregator<K, 16>,
-    {
-        let (mut s0, mut h0) = v.verify_init(vk, ctx, 0, ap, nonce, ps, &ins[0]).ok()?;
-        let (mut s1, mut h1) = v.verify_init(vk, ctx, 1, ap, nonce, ps, &ins[1]).ok()?;
-        loop {
-            let m = v.verifier_shares_to_message(ctx, ap, [h0.clone(), h1.clone()]).ok()?;
-            match (v.verify_next(ctx, s0, m.clone()).ok()?, v.verify_next(ctx, s1, m).ok()?) {
-                (VerifyTransition::Finish(a), VerifyTransition::Finish(b)) => return Some((a.get_encoded().ok()?, b.get_encoded().ok()?)),
-                (VerifyTransition::Continue(a, x), VerifyTransition::Continue(b, y)) => {
-                    s0 = a;
-                    h0 = x;
-                    s1 = b;
-                    h1 = y;
-                }
-                _ => return None,
-            }
-        }
-    }
     for i in 0..rounds {
         let nonce: [u8; 16] = rng.bytes(16).try_into().unwrap();
         let vk: [u8; 32] = rng.bytes(32).try_into().unwrap();
@@ -457,6 +499,7 @@ fn real_vdafs(out: &mut Out, rng: &mut Sm, rounds: usize) {
         let b = bc(&v, &vk, &ctx, &(), &nonce, &ps, &ins);
         out.oracle(a.is_some() && a.as_ref().map(|x| (x.0.clone(), x.1.clone())) == b, || format!("prio3sum pingpong {}", i), || "ping-pong and broadcast outputs differ".into());
         out.oracle(a.as_ref().map(|x| x.2.clone()) == Some(vec!["initialize", "finish"]), || format!("prio3sum kinds {}", i), || format!("message kinds {:?}", a.as_ref().map(|x| x.2.clone())));
+        prio3_pingpong(out, rng, i);
         // Poplar1 (two rounds)
         let bits = 1 + (i % 7);
         let v = Poplar1::new_turboshake128(bits);
@@ -468,13 +511,33 @@ fn real_vdafs(out: &mut Out, rng: &mut Sm, rounds: usize) {
         let b = bc(&v, &vk, &ctx, &ap, &nonce, &ps, &ins);
         out.oracle(a.is_some() && a.as_ref().map(|x| (x.0.clone(), x.1.clone())) == b, || format!("poplar1 pingpong bits={} level={}", bits, level), || "ping-pong and broadcast outputs differ".into());
         out.oracle(a.as_ref().map(|x| x.2.clone()) == Some(vec!["initialize", "continue", "finish"]), || format!("poplar1 kinds {}", i), || format!("message kinds {:?}", a.as_ref().map(|x| x.2.clone())));
+        // a Continue whose embedded verifier share is followed by extra bytes must be refused by the leader
+        {
+            let l = v.leader_initialized(&vk, &ctx, &ap, &nonce, &ps, &ins[0]);
+            if let Ok(l) = l {
+                if let Ok(hc) = v.helper_initialized(&vk, &ctx, &ap, &nonce, &ps, &ins[1], &l.message) {
+                    if let Ok(PingPongState::Continued(c)) = hc.evaluate(&ctx, &v) {
+                        if let PingPongMessage::Continue { verifier_message, verifier_share } = &c.message {
+                            for extra in [1usize, 8, 32] {
+                                let padded = PingPongMessage::Continue { verifier_message: verifier_message.clone(), verifier_share: [verifier_share.as_slice(), &vec![0u8; extra]].concat() };
+                                let accepted = match v.leader_continued(&ctx, &ap, l.verifier_state.clone(), &padded) {
+                                    Ok(cont) => cont.evaluate(&ctx, &v).is_ok(),
+                                    Err(_) => false,
+                                };
+                                out.oracle(!accepted, || format!("poplar1 pingpong bits={} level={} padded share +{}", bits, level, extra), || "a verifier share followed by extra bytes was accepted".into());
+                            }
+                        }
+                    }
+                }
+            }
+        }
         out.count("real_vdaf_runs");
     }
 }
 
 pub fn run(out: &mut Out, thorough: bool, seed: u64) {
     let mut rng = Sm::new(seed ^ 0xC12);
-    let alphabet = ["c", "x", "u", "t0", "t1", "t2", "s"];
+    let alphabet = ["c", "x", "u", "t0", "t1", "t2", "s", "p"];
     let depth = if thorough { 5 } else { 4 };
     for rounds in 1u8..=4 {
         let (s_l, s_h) = (rng.next() as u8, rng.next() as u8);
